@@ -17,8 +17,11 @@
 #endif
 #define NMC_MAIN
 #include "pipeline.hpp"
+#if PIPE_PROP == 15
+#include "nmtools/array/functional.hpp"
+#endif
 
-const char* nmc_property() { return PIPE_PROP == 10 ? "C10" : (PIPE_PROP == 11 ? "C11" : "C02"); }
+const char* nmc_property() { return PIPE_PROP == 10 ? "C10" : (PIPE_PROP == 11 ? "C11" : (PIPE_PROP == 15 ? "C15" : "C02")); }
 
 static long g_eval_mismatch = 0, g_capacity = 0, g_bounds_bad = 0, g_bounds_seen = 0; static std::string g_first_bad;
 static void eval_sink(int) { g_eval_mismatch++; }
@@ -70,6 +73,39 @@ template <class V, class E> Outcome check_node(const V& v, const E& e, const RAr
     nmc::count("transitions", 1); nmc::count("traces_validated", 1); if (known) nmc::count("nodes_with_static_knowledge", 1);
     if (!err.empty()) return Outcome::bad("wrong", err + where, true, lazy.hash());
     return Outcome::ok(known && r.size() > 1, lazy.hash() ^ nmc::mix((uint64_t)depth + (known ? 17 : 0)));
+#elif PIPE_PROP == 15
+    // propagation of Nothing: an EMPTY optional of this node's view type fed into every further stage, into eval and into
+    // get_function_composition must stay empty (and nothing may be dereferenced: ASan / _GLIBCXX_ASSERTIONS shadow build)
+    using V_ = meta::remove_cvref_t<V>;
+    const nmtools_maybe<V_> none = meta::Nothing;
+    std::string err; long stages = 0;
+    auto try_op = [&](auto tag) {
+        constexpr int OP = decltype(tag)::value;
+        // view::flip and view::expand_dims do not lift an optional operand: the call is rejected at compile time (loud), not instantiated
+        if constexpr (OP == O_FLIP || OP == O_EXPAND || OP == O_FLIP_CT || OP == O_EXPAND_CT) return; else {
+        if (!err.empty()) return;
+        auto m = menu(OP, r); if (m.empty()) return;
+        const auto res = view_apply<OP>(none, m[0], r, ctx);
+        using R = meta::remove_cvref_t<decltype(res)>;
+        if constexpr (meta::is_fail_v<R> || meta::is_same_v<R, nm::none_t>) { return; }
+        else if constexpr (!meta::is_maybe_v<R>) { err = std::string(op_name(OP)) + " of an empty optional returned a non-optional view"; }
+        else {
+            stages++;
+            if (nm::has_value(res)) { err = std::string(op_name(OP)) + " of an empty optional has a value"; return; }
+            const auto ev = na::eval(res);
+            if constexpr (meta::is_maybe_v<meta::remove_cvref_t<decltype(ev)>>) { if (nm::has_value(ev)) err = std::string("eval(") + op_name(OP) + "(Nothing)) has a value"; }
+            else err = std::string("eval(") + op_name(OP) + "(Nothing)) is not an optional";
+            const auto f = nmtools::functional::get_function_composition(res);
+            if constexpr (meta::is_maybe_v<meta::remove_cvref_t<decltype(f)>>) { if (nm::has_value(f)) err = std::string("get_function_composition(") + op_name(OP) + "(Nothing)) has a value"; }
+            else err = std::string("get_function_composition(") + op_name(OP) + "(Nothing)) is not an optional";
+        }
+        }
+    };
+    meta::template_for<O_ROLL>([&](auto i) { try_op(meta::ct_v<(int)decltype(i)::value>); });
+    { const auto ev = na::eval(none); if (nm::has_value(ev)) err = "eval(Nothing) has a value"; }
+    nmc::count("transitions", stages); nmc::count("traces_validated", 1); nmc::count("propagation_stages", stages);
+    if (!err.empty()) return Outcome::bad("wrong", err + where, true, 7);
+    return Outcome::ok(true, nmc::mix((uint64_t)stages * 131 + (uint64_t)r.dim() * 7 + (uint64_t)r.size()));
 #else
     Obs lazy = nmc::observe(v);
     long seen_read = g_bounds_seen;
